@@ -81,6 +81,12 @@ CHECKS = {
         text="L1: for each expression shape (all shapes to depth 2, sampled depth 3, over + - * / % unary minus; bound and free variables) CrossHair explores every path of the real interval code with symbolic optional range ends, additive constants and valuation, and must report 'Confirmed over all paths' that the value lies inside the returned range; also join and partial_eval_with_range. L2: every claim the analysis makes in context is re-proved by z3 from the checker's own variable ranges.",
         note="'other' because L1 is per-path symbolic execution under a time budget (CrossHair), L2 unbounded SMT validity. Literals for scaling/divisors are concrete ({-3,-1,2}/{1,2,3,8}). Reachability twins must be refuted.",
         design="5/C13"),
+    "C14": dict(
+        category=TV, engine="llsym",
+        technique="per @instr of exo.platforms.x86: a generated wrapper procedure is compiled by the real compiler, the resulting C fragment's LLVM IR is executed by llsym and compared by z3 with loopsym on the instruction's Exo body (C02 machinery); counterexamples replayed natively on the host CPU",
+        text="Every x86 instruction (AVX2 and AVX-512) is called once from a wrapper whose DRAM operands are window arguments (symbolic base offset), register operands are AVX2/AVX512 allocations loaded/stored with the library's plain load/store instructions, and size/mask operands range over everything the instruction's assertions allow; z3 decides for all operand lanes that the C fragment has exactly the effect of the Exo body. A C fragment that does not compile is a violation.",
+        note="Exhaustive in the control arguments (lane counts 4/8/16 and asserted ranges). Not judged and listed in evidence: integer-data arithmetic (avx2_ui16_divide_by_3, mm256_add_epi16, si256 load/store), prefetch. Intrinsic models are hand-written (trusted base).",
+        design="5/C14"),
     "C17": dict(
         category=TV, engine="loopsym",
         technique="print -> real @proc parse -> alpha-equivalence walk + z3 equivalence query (loopsym) between the procedure and its re-parsed text",
@@ -100,7 +106,7 @@ NOT_APPLICABLE = [
     ("C18", "Quantifies over CPython hash seeds and process histories; encoding it needs a model of the interpreter's dict/set implementation, not of Exo (DESIGN 6)."),
 ]
 
-PENDING = {p: 'check under construction in this round (design in DESIGN.md section 5); not claimed until its command exists' for p in ['C06','C14','C16']}
+PENDING = {p: 'check under construction in this round (design in DESIGN.md section 5); not claimed until its command exists' for p in ['C06','C16']}
 
 
 def main():
